@@ -157,7 +157,9 @@ def gen_desc(rng, fields, depth=2, nfields=(1, 5), rules_ok=0.95, order_p=0.3, b
                     k = rng.choice(["Type", "MINIMUM", "Required", "Not"])
                     facts["extra_fold"] = True
                 else:
-                    k = rng.choice(["x-a", "foo", "$bar", "nullable", "zz"])
+                    # (the second half: names of the Go side of the struct that are no JSON keyword and fold onto none — the tag
+                    # text "-" of the fields without a key, Go names of such fields)
+                    k = rng.choice(["x-a", "foo", "$bar", "nullable", "zz", "x-a", "foo", "-", "-", "Extra", "ID", "Types", "PropertyOrder"])
                 if k not in [e[0] for e in out]:
                     out.append([k, gs.gen_value(rng, 1)])
             return out
